@@ -90,7 +90,7 @@ REPS = ["banner.png", "songBN.PNG", "Background.jpg", "xbg.png", "cdtitle.png", 
         "readme.txt", "bnx.png", "sub"]
 
 
-def lookup(kind: int, e0: int, e1: int, e2: int, n: int, spec: int, ssc: bool) -> bool:
+def lookup(kind: int, e0: int, e1: int, e2: int, n: int, spec: int, ssc: bool, rel: bool) -> bool:
     """
     pre: 0 <= kind < len(KINDS) and 0 <= e0 < len(REPS) and 0 <= e1 < len(REPS) and 0 <= e2 < len(REPS) and 0 <= n <= 3 and 0 <= spec <= 7
     pre: e0 != e1 and e1 != e2 and e0 != e2
@@ -99,7 +99,8 @@ def lookup(kind: int, e0: int, e1: int, e2: int, n: int, spec: int, ssc: bool) -
     global LAST
     import os
     K = KINDS[kind]
-    d = "/songs/pack/song"
+    # the directory as an absolute path or as a bare relative name (several representatives start with that name)
+    d = "song" if rel else "/songs/pack/song"
     names = [REPS[e0], REPS[e1], REPS[e2]][:n]
     listing = {d: list(names), d + "/sub": ["Inner.PNG", "clip.ogg"]}
     dirs = {"/songs", "/songs/pack", d}
